@@ -135,7 +135,7 @@ CHECKS["C15"] = dict(
           "CBOR item / a truncated message: handler calls == k, right handler, authenticated remote peer, faithful content; malformed tails are reported and reset. "
           "distinct = (pattern length, attempts, mode, calls, outcome) resp. (k, tail kind, errors, reset)."),
     parts=[
-        dict(test="TestC15Send", quick=320, thorough=30000, per_shard=32, max_shards=10),
+        dict(test="TestC15Send", quick=320, thorough=15000, per_shard=32, max_shards=10),
         dict(test="TestC15Inbound", quick=96, thorough=6000, per_shard=10),
         dict(test="TestC15Reuse", quick=8, thorough=160, per_shard=2),
     ],
